@@ -924,15 +924,16 @@ func tamperPass(wp **world, out *JobOut, outcomes map[string]bool, addVio func(s
 		pt = wr.PTs[0]
 	}
 	setup := func(w *world) error {
-		// path live and the first packets of every stream unaltered; each RTP sender produces one sender report on
-		// its own after its first packet: all of them are awaited so that none can fall into a tamper window
+		// path live and the first packets of every stream unaltered; the RTP sender of a format (shared by the
+		// stream-level and the session-level entry point) produces one sender report on its own after its first
+		// packet: it is awaited so that it cannot fall into a tamper window (only the first format is used here)
 		want := 0
 		for _, x := range w.writers() {
 			if x.Dir == wr.Dir && x.Kind == "rtp" && x.Media == wr.Media {
 				if err := w.warm(x, pt0(x), 3); err != nil {
 					return err
 				}
-				want++
+				want = 1
 			}
 		}
 		if want > 0 && !wr.rx.wait(sysx.HangLimit, func() bool {
